@@ -255,7 +255,7 @@ def val_coq(d, x):
         return "(VTuple [%s])" % "; ".join(prim_val_coq(p, v) for p, v in zip(d[1], x)) if len(x) == len(d[1]) \
             else "(VTuple [%s])" % "; ".join(prim_val_coq(("U", 8), 0) for _ in x)
     if k == "bits":
-        return "(VTuple [%s])" % "; ".join(prim_val_coq(("bool",), v) for v in x)
+        return "(VTuple [%s])" % "; ".join("(VInt %d)" % (1 if v else 0) for v in x)
     if k == "raw":
         return "(VBytes %s)" % zl(x)
     if k == "varlen":
